@@ -208,40 +208,6 @@ Proof. split; vm_compute; reflexivity. Qed.
 
 (* ================================================================================================
    (3) dataclass fields *)
-Section SortByFacts.
-  Context {A : Type} (key : A -> str).
-  Lemma insert_by_comm : forall x y l, key x <> key y ->
-    insert_by key x (insert_by key y l) = insert_by key y (insert_by key x l).
-  Proof.
-    intros x y l Hne. induction l as [|z r IH]; simpl.
-    - destruct (str_leb (key x) (key y)) eqn:E1, (str_leb (key y) (key x)) eqn:E2; try reflexivity.
-      + exfalso. apply Hne. apply str_leb_antisym; assumption.
-      + apply str_leb_false in E1. congruence.
-    - destruct (str_leb (key y) (key z)) eqn:Eyz, (str_leb (key x) (key z)) eqn:Exz; simpl.
-      + destruct (str_leb (key x) (key y)) eqn:Exy, (str_leb (key y) (key x)) eqn:Eyx;
-          rewrite ?Exz, ?Eyz; try reflexivity.
-        * exfalso. apply Hne. apply str_leb_antisym; assumption.
-        * apply str_leb_false in Exy. congruence.
-      + rewrite Eyz. destruct (str_leb (key x) (key y)) eqn:Exy.
-        * rewrite (str_leb_trans _ _ _ Exy Eyz) in Exz. discriminate.
-        * rewrite Exz. reflexivity.
-      + rewrite Exz. destruct (str_leb (key y) (key x)) eqn:Eyx.
-        * rewrite (str_leb_trans _ _ _ Eyx Exz) in Eyz. discriminate.
-        * rewrite Eyz. reflexivity.
-      + rewrite Exz, Eyz. f_equal. exact IH.
-  Qed.
-
-  (* sorting by an injective key is canonical *)
-  Theorem sort_by_perm : forall l l', Permutation l l' -> NoDup (map key l) -> sort_by key l = sort_by key l'.
-  Proof.
-    induction 1 as [|x l l' Hp IH|x y l|l l' l'' Hp1 IH1 Hp2 IH2]; intro Hnd; simpl.
-    - reflexivity.
-    - inversion Hnd; subst. rewrite IH by assumption. reflexivity.
-    - simpl in Hnd. inversion Hnd as [|? ? Hx Hr]; subst.
-      apply insert_by_comm. intro E. apply Hx. left. symmetry. exact E.
-    - rewrite IH1 by exact Hnd. apply IH2. eapply Permutation_NoDup; [|exact Hnd]. apply Permutation_map. exact Hp1.
-  Qed.
-End SortByFacts.
 
 Lemma prop_key_inj_name : forall x y : prop, fst x <> fst y -> prop_key x <> prop_key y.
 Proof. intros x y H E. unfold prop_key in E. inversion E. contradiction. Qed.
